@@ -616,6 +616,8 @@ func registerIntrinsics(e *Engine) {
 		"github.com/prometheus/client_golang/prometheus.MustRegister",
 		"(*sync.WaitGroup).Add", "(*sync.WaitGroup).Done", "(*sync.WaitGroup).Wait",
 		"runtime.GC", "runtime/debug.FreeOSMemory",
+		"github.com/hashicorp/go-metrics.MeasureSince", "github.com/hashicorp/go-metrics.IncrCounter", "github.com/hashicorp/go-metrics.SetGauge", "github.com/hashicorp/go-metrics.AddSample",
+		"github.com/armon/go-metrics.MeasureSince",
 	} {
 		reg(n, noop)
 	}
